@@ -55,8 +55,9 @@ def offline(ctx, res):
     res.counters["cli_replays"] = runs[0]
     fuzz_cov = fuzz_leg(ctx, res) if ctx["tier"] == "thorough" else {"skipped": "libFuzzer + ASan leg runs in the thorough tier only"}
     miri_cov = miri_leg(ctx, res) if ctx["tier"] == "thorough" else {"skipped": "Miri shard runs in the thorough tier only"}
+    checked_cov = checked_leg(ctx, res) if ctx["tier"] == "thorough" else {"skipped": "overflow-checks amplifier runs in the thorough tier only"}
     return {"evaluations": runs[0], "nontrivial": 0, "distinct_nontrivial": 0,
-            "coverage": {"libfuzzer_asan_leg": fuzz_cov, "miri_leg": miri_cov, "cli_leg": {"records_replayed": len(recs), "cli_invocations": runs[0], "modes": ["file", "inline", "-e stdin", "--format", "-i", "stdin inputs"]}}}
+            "coverage": {"libfuzzer_asan_leg": fuzz_cov, "miri_leg": miri_cov, "overflow_checks_leg": checked_cov, "cli_leg": {"records_replayed": len(recs), "cli_invocations": runs[0], "modes": ["file", "inline", "-e stdin", "--format", "-i", "stdin inputs"]}}}
 
 
 def max_nesting(src):
@@ -77,6 +78,8 @@ def fuzz_leg(ctx, res):
     import shutil
     import subprocess
     import time
+    if os.environ.get("VERIF_FUZZ_SECONDS", "150") == "0":
+        return {"skipped": "VERIF_FUZZ_SECONDS=0"}
     harness = os.path.join(common.VERIF, "harness")
     work = os.path.join(ctx["rundir"], "fuzz")
     corpus = os.path.join(work, "corpus")
@@ -203,3 +206,62 @@ def miri_leg(ctx, res):
             res.inconclusive_cases.append(f"Miri shard {part} {shard}: {st} {tail[-200:]}")
     return {"status": "ran", "seconds": round(time.time() - t0, 1), "processes": len(jobs), "cases_interpreted": total,
             "undefined_behaviour_reports": sum(1 for r in results if r[0] == "ub")}
+
+
+def checked_leg(ctx, res):
+    """Thorough only: the two-stage amplifier of DESIGN section 4. The same probe, built with `-C overflow-checks=on
+    -C debug-assertions=on` (own target directory), replays the quick-tier C01 workload. Integer overflow and failed debug
+    assertions are silent in the shipped profile, so a panic seen ONLY by this build is not a C01 violation by itself: the site is
+    listed in the evidence (where to look), and the release-profile monitors - which ran the same cases - decide. Anything else
+    this build reports that the release build also reports is already in the verdict."""
+    import subprocess
+    import time
+    if os.environ.get("VERIF_CHECKED", "1") == "0":
+        return {"skipped": "VERIF_CHECKED=0"}
+    harness = os.path.join(common.VERIF, "harness")
+    tdir = os.path.join(common.TARGET, "harness-checked")
+    env = dict(common.ENV)
+    env["RUSTFLAGS"] = "-C overflow-checks=on -C debug-assertions=on"
+    t0 = time.time()
+    b = subprocess.run(["cargo", "build", "--release", "--offline", "--target-dir", tdir], cwd=harness, env=env,
+                       stdout=subprocess.PIPE, stderr=subprocess.STDOUT, text=True, timeout=1800)
+    if b.returncode != 0:
+        return {"status": "inconclusive: checked build failed", "tail": b.stdout[-400:]}
+    probe = os.path.join(tdir, "release", "probe")
+    n = 16
+
+    import shutil
+    import tempfile
+    rundir = tempfile.mkdtemp(prefix="c01-checked-", dir=os.path.join(common.VERIF, ".target"))
+
+    def one(i):
+        r = common.run_probe("C01", "quick", ctx["seed"], i, n, rundir, {}, 1500, journal=True, binary=probe)
+        evals, sites = 0, []
+        try:
+            for line in open(r["out"], encoding="utf-8", errors="replace"):
+                try:
+                    ev = json.loads(line)
+                except Exception:
+                    continue
+                if ev.get("t") == "stats":
+                    evals += ev.get("evaluations", 0)
+                if ev.get("t") == "viol":
+                    txt = json.dumps(ev)
+                    if "overflow" in txt or "debug_assert" in txt or "assertion" in txt or "out of range" in txt:
+                        sites.append({"sig": ev.get("sig"), "case": ev.get("case")})
+        except OSError:
+            pass
+        deaths = [f"rc={d['rc']} on {d['case'][:200]}" for d in r["deaths"]]
+        return (i, "ok" if r["rc"] == 0 else f"rc={r['rc']}", evals, sites, deaths)
+
+    results = common.pmap(one, list(range(n)), workers=16)
+    sites = {}
+    for i, st, evals, ss, _ in results:
+        for x in ss:
+            sites.setdefault(x["sig"], x)
+    not_ok = [f"shard {i}: {st}" for i, st, _, _, _ in results if st != "ok"]
+    shutil.rmtree(rundir, ignore_errors=True)
+    return {"status": "ran", "seconds": round(time.time() - t0, 1), "build": "release + overflow-checks + debug-assertions", "cases": sum(r[2] for r in results),
+            "shards_without_result": not_ok, "panics_only_checked_build_can_see": len(sites),
+            "process_deaths_in_checked_build": sorted({d for r in results for d in r[4]})[:10], "sites": list(sites.values())[:20],
+            "role": "pointer for triage; never changes the verdict (the release-profile monitors decide)"}
